@@ -786,7 +786,7 @@ func (it *Interp) step(i int, op *Op) {
 		case *mtypes.SendToHubEvent:
 			switch op.N {
 			case 0:
-				e.Amount = e.Amount.MulRaw(10).AddRaw(1)
+				e.Amount = inflate(e.Amount, 10)
 			case 1:
 				e.CosmosReceiver = sim.UserAddr(2).String()
 			case 2, 3:
@@ -798,7 +798,7 @@ func (it *Interp) step(i int, op *Op) {
 		case *mtypes.TransferToChainEvent:
 			switch op.N {
 			case 0:
-				e.Amount = e.Amount.MulRaw(10).AddRaw(1)
+				e.Amount = inflate(e.Amount, 10)
 			case 1:
 				e.ExternalReceiver = sim.ExtUser(3).Hex()
 				if e.ReceiverChainId == "hub" {
@@ -823,7 +823,7 @@ func (it *Interp) step(i int, op *Op) {
 			case 2:
 				e.FeePayer = "not-an-address" // (the fee payer is not validated and not part of the claim id)
 			case 3, 4:
-				e.FeePaid = e.FeePaid.MulRaw(1000).AddRaw(1)
+				e.FeePaid = inflate(e.FeePaid, 1000)
 			case 6:
 			default:
 				e.TxHash = "0xbad"
@@ -1167,4 +1167,13 @@ func (it *Interp) hostileEvent(chain string, op *Op) mtypes.ExternalEvent {
 		return &mtypes.ContractCallExecutedEvent{EventNonce: w.nextNonce(), InvalidationScope: []byte{}, InvalidationNonce: 0,
 			ExternalHeight: 1<<64 - 1, TxHash: w.txHash()}
 	}
+}
+
+// inflate is what a lying validator reports instead of x: k*x+1, or - where that would not fit into an Int (whale
+// values) - x/k+1: another value in any case.
+func inflate(x sdk.Int, k int64) sdk.Int {
+	if x.BigInt().BitLen() > 240 {
+		return x.QuoRaw(k).AddRaw(1)
+	}
+	return x.MulRaw(k).AddRaw(1)
 }
